@@ -80,7 +80,8 @@ func runCborDec(payload string) string {
 	rd := bytes.NewReader(in)
 	// an optional third field picks how the bytes are delivered (the verdict must not depend on it)
 	var src io.Reader = rd
-	via := ""
+	// (not said: in rotation by the length of the input)
+	via := []string{"whole", "one", "half", "dataerr"}[len(in)%4]
 	if len(fs) > 2 {
 		via = fs[2]
 	}
